@@ -482,6 +482,27 @@ theorem exclusive_step {cfg cfg' : List Th} {i : Nat} (h : Exclusive cfg) (hs : 
           omega
         · simp at h1
 
+theorem exclusive_run (sched : List Nat) : ∀ {cfg cfg' : List Th}, Exclusive cfg → run cfg sched = some cfg' →
+    Exclusive cfg' := by
+  induction sched with
+  | nil => intro cfg cfg' h hr; simp only [run, Option.some.injEq] at hr; subst hr; exact h
+  | cons i is ih =>
+    intro cfg cfg' h hr
+    simp only [run] at hr
+    split at hr
+    · simp at hr
+    · rename_i c1 hs
+      exact ih (exclusive_step h hs) hr
+
+theorem exclusive_initial (progs : List (List Call)) : Exclusive (initial progs) := by
+  intro l
+  have : (List.map (fun t : Th => t.held.count l) (initial progs)).sum = 0 := by
+    unfold initial
+    induction progs with
+    | nil => rfl
+    | cons p ps ih => simp only [List.map_cons, List.sum_cons, List.count_nil, Nat.zero_add]; exact ih
+  omega
+
 /-! ### witnesses -/
 
 /-- WITHOUT the address comparison two threads copying in opposite directions deadlock: after both
